@@ -2,75 +2,130 @@ import MJ.Proofs.MetaSim
 /-!
 # C18 — `undeclared_variables` never omits a variable the template reads
 
-Model: `MJ/Model/Meta.lean` (`findUndeclared` = `compiler/meta.rs` after the `fix:` commit,
-`reads` = name resolution of the generated code under an arbitrary choice tree).
+Model: `MJ/Model/Meta.lean` (`findUndeclared` / `findUndeclaredNested` = `compiler/meta.rs`
+after the `fix:` commits, `reads` = name resolution of the generated code under an arbitrary
+choice tree, with `break`/`continue`, recursive loops re-entered through `loop(..)`, blocks
+rendered in place and through `self.name()`, re-entries nested to any depth `d`).
 -/
 namespace MJ.C18
 open MJ.Meta
 
 /-- Full-strength statement: every context key any execution asks for is reported. -/
 def C18_full : Prop :=
-  ∀ (t : List Stmt) (cs : List Ch) (x : String), x ∈ reads t cs → x ∈ findUndeclared t
+  ∀ (t : List Stmt) (cs : List Ch) (d : Nat) (x : String),
+    x ∈ reads t cs d → x ∈ findUndeclared t
 
-/-- The whole fragment (loops, conditionals, with/set/set-block/filter-block/autoescape,
-macros, call blocks, do), every choice tree: a key the render asks the context for is reported
-by the analysis, or it is the name of a macro whose own closure analysis mentions that name
-(the known finding: `Enclose(name)` runs before `StoreLocal(name)`). -/
-theorem reads_subset_undeclared_or_selfref (t : List Stmt) (cs : List Ch) (x : String)
-    (hx : x ∈ reads t cs) : x ∈ findUndeclared t ∨ x ∈ selfRefsL t := by
-  have hinit : Inv [] [] St.init := by
-    intro y hy; simp [St.init, St.isAssigned] at hy
-  exact (sim_walkList t St.init [] [] cs hinit).reads x hx
+/-- The whole fragment (loops with filter/else/recursion/break/continue, conditionals,
+with/set/set-block/filter-block/autoescape, blocks and `self.name()`, macros, call blocks,
+do), every choice tree, every nesting depth of re-entries: a key the render asks the context
+for is reported by the analysis, or it is the name of a macro whose own closure analysis
+mentions that name (the known finding: `Enclose(name)` runs before `StoreLocal(name)`). -/
+theorem reads_subset_undeclared_or_selfref (t : List Stmt) (cs : List Ch) (d : Nat) (x : String)
+    (hx : x ∈ reads t cs d) : x ∈ findUndeclared t ∨ x ∈ selfRefsL t := by
+  have hflat : (walkList St.init t).nested = none := (step_walkList t St.init).nn rfl
+  rcases template_sound t St.init rfl cs d x hx with h | h
+  · exact Or.inl ((reported_none hflat x).1 h)
+  · exact Or.inr h
 
-example : ∃ t cs x, x ∈ reads t cs ∧ x ∈ findUndeclared t ∧ selfRefsL t ≠ [] :=
-  ⟨[.macro "m" [] [] [.emit (.var "m"), .emit (.var "y")]], [], "y", by decide, by decide, by decide⟩
+example : ∃ t cs d x, x ∈ reads t cs d ∧ x ∈ findUndeclared t ∧ selfRefsL t ≠ [] :=
+  ⟨[.macro "m" [] [] [.emit (.var "m"), .emit (.var "y")]], [], 0, "y",
+    by decide, by decide, by decide⟩
 
 /-- Soundness for templates without self-referential macros. -/
 theorem reads_subset_undeclared (t : List Stmt) (hself : selfRefsL t = [])
-    (cs : List Ch) (x : String) (hx : x ∈ reads t cs) : x ∈ findUndeclared t := by
-  rcases reads_subset_undeclared_or_selfref t cs x hx with h | h
+    (cs : List Ch) (d : Nat) (x : String) (hx : x ∈ reads t cs d) : x ∈ findUndeclared t := by
+  rcases reads_subset_undeclared_or_selfref t cs d x hx with h | h
   · exact h
   · rw [hself] at h; cases h
 
 /-- hypotheses satisfiable by a template with a macro, a closure, shadowing and a real read:
 `{% set x = x %}{% macro m(a, b=q) %}{{ a }}{{ x }}{{ z }}{% endmacro %}{{ m(y) }}` -/
-example : ∃ t cs, selfRefsL t = [] ∧ reads t cs = ["x", "z", "q", "y"]
+example : ∃ t cs, selfRefsL t = [] ∧ reads t cs 0 = ["x", "z", "q", "y"]
     ∧ findUndeclared t = ["y", "z", "q", "x"] :=
   ⟨[.set (.var "x") (.var "x"),
     .macro "m" ["a", "b"] [.var "q"] [.emit (.var "a"), .emit (.var "x"), .emit (.var "z")],
     .emit (.call (.var "m") [.pos (.var "y")])],
-   [.default, .mk 0 [[]], .default], by decide, by decide, by decide⟩
+   [.default, .mk 0 [[]] [], .default], by decide, by decide, by decide⟩
+
+/-- a recursive loop re-entered from inside a `with`, a `continue`, a block rendered through
+`self.b()` in front of the assignment it seems to rely on:
+`{% for a in y recursive %}{% if c %}{% continue %}{% endif %}{% with w = 1 %}{{ loop(a) }}
+ {{ q }}{% endwith %}{% endfor %}{{ self.b() }}{% set x = 1 %}{% block b %}{{ x }}{% endblock %}` -/
+example : ∃ t cs, selfRefsL t = [] ∧ reads t cs 1 = ["y", "c", "c", "q", "x"]
+    ∧ findUndeclared t = ["x", "q", "c", "y"] :=
+  ⟨[.forLoop (.var "a") (.var "y") none true
+      [.ifCond (.var "c") [.cont] [],
+       .withBlock [(.var "w", .const)]
+         [.emit (.call (.var "loop") [.pos (.var "a")]), .emit (.var "q")]] [],
+    .emit (.call (.getattr (.var "self") "b") []),
+    .set (.var "x") .const,
+    .block "b" [.emit (.var "x")]],
+   [.mk 2 [[.mk 0 [] [], .mk 0 [[.mk 0 [] [.mk 0 [[.mk 1 [[]] []]] []], .default]] []]] [],
+    .mk 0 [] [.mk 0 [[]] []], .default, .mk 0 [[]] []],
+   by decide, by decide, by decide⟩
 
 /-- Phase 1: the macro-free fragment. -/
 theorem reads_subset_undeclared_partial (t : List Stmt) (hno : noMacroL t = true)
-    (cs : List Ch) (x : String) (hx : x ∈ reads t cs) : x ∈ findUndeclared t :=
-  reads_subset_undeclared t (noMacroL_selfRefsL t hno) cs x hx
+    (cs : List Ch) (d : Nat) (x : String) (hx : x ∈ reads t cs d) : x ∈ findUndeclared t :=
+  reads_subset_undeclared t (noMacroL_selfRefsL t hno) cs d x hx
 
 /-- hypotheses satisfiable with shadowing in every construct:
 `{% for x in x %}{{ x }}{{ loop }}{% endfor %}{% with a = a %}{{ a }}{% endwith %}
  {% if c %}{% set y = 1 %}{% endif %}{{ y }}{{ foo[q:] }}` -/
-example : ∃ t cs, noMacroL t = true ∧ reads t cs = ["x", "a", "c", "y", "foo", "q"]
+example : ∃ t cs, noMacroL t = true ∧ reads t cs 0 = ["x", "a", "c", "y", "foo", "q"]
     ∧ findUndeclared t = ["q", "foo", "y", "c", "a", "x"] :=
-  ⟨[.forLoop (.var "x") (.var "x") none [.emit (.var "x"), .emit (.var "loop")] [],
+  ⟨[.forLoop (.var "x") (.var "x") none false [.emit (.var "x"), .emit (.var "loop")] [],
     .withBlock [(.var "a", .var "a")] [.emit (.var "a")],
     .ifCond (.var "c") [.set (.var "y") .const] [],
     .emit (.var "y"),
     .emit (.slice (.var "foo") (some (.var "q")) none none)],
-   [.mk 2 [[]], .default, .default], by decide, by decide, by decide⟩
+   [.mk 2 [[]] [], .default, .default], by decide, by decide, by decide⟩
+
+/-- The `nested = true` report: every key the render asks the context for is the root of a
+reported dotted name (`(x, attrs)` stands for `x.attr₁.attr₂…`), with the same exception. -/
+theorem reads_root_of_nested_or_selfref (t : List Stmt) (cs : List Ch) (d : Nat) (x : String)
+    (hx : x ∈ reads t cs d) :
+    (∃ attrs, (x, attrs) ∈ findUndeclaredNested t) ∨ x ∈ selfRefsL t := by
+  obtain ⟨n, hn⟩ := (step_walkList t St.initNested).sn (n := []) rfl
+  rcases template_sound t St.initNested rfl cs d x hx with h | h
+  · left
+    simp only [St.reported, hn] at h
+    simpa [findUndeclaredNested, hn] using h
+  · exact Or.inr h
+
+/-- `{{ foo.bar.baz }}{% set x = cfg.a %}{{ x.y }}{{ cfg }}`: the report is
+`foo.bar.baz`, `cfg.a`, `cfg`; the render asks for `foo` and `cfg` -/
+example : ∃ t cs, reads t cs 0 = ["foo", "cfg", "cfg"]
+    ∧ findUndeclaredNested t = [("cfg", []), ("cfg", ["a"]), ("foo", ["bar", "baz"])] :=
+  ⟨[.emit (.getattr (.getattr (.var "foo") "bar") "baz"),
+    .set (.var "x") (.getattr (.var "cfg") "a"),
+    .emit (.getattr (.var "x") "y"),
+    .emit (.var "cfg")], [], by decide, by decide⟩
+
+theorem reads_root_of_nested (t : List Stmt) (hself : selfRefsL t = [])
+    (cs : List Ch) (d : Nat) (x : String) (hx : x ∈ reads t cs d) :
+    ∃ attrs, (x, attrs) ∈ findUndeclaredNested t := by
+  rcases reads_root_of_nested_or_selfref t cs d x hx with h | h
+  · exact h
+  · rw [hself] at h; cases h
+
+example : selfRefsL [Stmt.emit (.getattr (.var "foo") "bar")] = [] := by decide
 
 /-- The full statement fails on the current code: a macro that mentions its own name makes the
 declaration ask the context for that name, and the analysis (rightly) does not report it. -/
 theorem C18_counterexample : ¬ C18_full := by
   intro h
-  have := h [.macro "m" [] [] [.emit (.var "m")]] [] "m" (by decide)
+  have := h [.macro "m" [] [] [.emit (.var "m")]] [] 0 "m" (by decide)
   revert this
   decide
 
-/-- The analysis cannot hit `unwrap()` on an empty scope stack. -/
-theorem analysis_no_panic (t : List Stmt) : (walkList St.init t).bad = false :=
-  findUndeclared_no_panic t
+/-- The analysis cannot hit `unwrap()` on an empty scope stack (either mode). -/
+theorem analysis_no_panic (t : List Stmt) :
+    (walkList St.init t).bad = false ∧ (walkList St.initNested t).bad = false :=
+  ⟨findUndeclared_no_panic t, (step_walkList t St.initNested).bad [] [] rfl⟩
 
-example : (walkList St.init [.forLoop (.var "x") (.var "y") none [.set (.var "z") .const] []]).bad
-    = false := analysis_no_panic _
+example : (walkList St.init
+    [.forLoop (.var "x") (.var "y") none false [.set (.var "z") .const] []]).bad = false :=
+  (analysis_no_panic _).1
 
 end MJ.C18
